@@ -286,7 +286,7 @@ func c12Success(p *ePair, o c12Opts, ca, cb net.Conn) {
 // initializer for file mappings). The script is cut after k bytes — k is an environment choice: every message
 // boundary in quick, every byte in thorough — and the peer then falls silent or closes. Uncut, the handshake must
 // succeed with version 3.
-func c12ScriptedBody(everyByte, closing bool) func() {
+func c12ScriptedBody(everyByte, closing, badBuffer bool) func() {
 	return func() {
 		p := pairBegin()
 		ca, cb := socketPairConns()
@@ -298,11 +298,21 @@ func c12ScriptedBody(everyByte, closing bool) func() {
 		var bounds []int
 		setup := vrt.GoProc("scripted-setup", 3, func() {
 			cfg := pairConfig(pairOpts{File: true}, p.name)
-			if _, err := createQueueManager(qpath, cfg.QueueCap); err != nil {
+			qm, err := createQueueManager(qpath, cfg.QueueCap)
+			if err != nil {
 				vrt.Failf("harness", "createQueueManager: %v", err)
 			}
-			if _, err := getGlobalBufferManager(bpath, cfg.ShareMemoryBufferCap, true, cfg.BufferSliceSizes); err != nil {
+			syscallMunmap(qm.mem) // the scripted client only needs the files: whatever is mapped afterwards is the server's
+			bm, err := getGlobalBufferManager(bpath, cfg.ShareMemoryBufferCap, true, cfg.BufferSliceSizes)
+			if err != nil {
 				vrt.Failf("harness", "getGlobalBufferManager: %v", err)
+			}
+			syscallMunmap(bm.mem)
+			delete(bufferManagers.bms, bpath)
+			if badBuffer {
+				// the buffer file vanishes between the client's announcement and the server's mapping of it (the
+				// client gave up and cleaned up): the server maps the queue, then fails on the buffer
+				os.Remove(bpath)
 			}
 			h := header(make([]byte, headerSize))
 			h.encode(headerSize, 3, typeExchangeProtoVersion)
@@ -358,7 +368,11 @@ func c12ScriptedBody(everyByte, closing bool) func() {
 		if sEnd-start > int64(c12InitTimeout)+int64(50*ms) {
 			vrt.Failf("late", "the server's newSession returned after %d ms (timeout %d ms)", (sEnd-start)/1e6, int64(c12InitTimeout)/1e6)
 		}
-		if cut < 0 {
+		if cut < 0 && badBuffer {
+			if p.serr == nil {
+				vrt.Failf("established-without-buffer", "the buffer file does not exist and the server's newSession succeeded")
+			}
+		} else if cut < 0 {
 			if p.serr != nil {
 				vrt.Failf("handshake-failed", "complete protocol-3 / file-path script: server returned %v", p.serr)
 			}
@@ -382,6 +396,9 @@ func c12ScriptedBody(everyByte, closing bool) func() {
 		}
 		if left := c12Leftovers(p, 3); left != "" {
 			vrt.Failf("leftover", "scripted client stopped at byte %d (closing=%v), server returned %v; left behind: %s", cut, closing, p.serr, left)
+		}
+		if m := mappedPaths(p.name); len(m) > 0 {
+			vrt.Failf("leftover", "scripted client stopped at byte %d (closing=%v, buffer file missing=%v), server returned %v; still mapped: %v", cut, closing, badBuffer, p.serr, m)
 		}
 		if dup > 0 {
 			vrt.Failf("known:handshake-failure-leaks-conn-dup", "scripted client stopped at byte %d, the server's newSession returned %v and left the descriptor it duplicated from the connection open", cut, p.serr)
@@ -420,7 +437,8 @@ func TestVerif_C12(t *testing.T) {
 	}
 	thorough := os.Getenv("VERIF_TIER") == "thorough"
 	scs = append(scs,
-		bScenario{Name: "scripted-v3-filepath-client-silent", Bound: 1, BoundT: 1, Body: c12ScriptedBody(thorough, false), Live: true},
-		bScenario{Name: "scripted-v3-filepath-client-closing", Bound: 1, BoundT: 1, Body: c12ScriptedBody(thorough, true), Live: true})
+		bScenario{Name: "scripted-v3-filepath-client-silent", Bound: 1, BoundT: 1, Body: c12ScriptedBody(thorough, false, false), Live: true},
+		bScenario{Name: "scripted-v3-filepath-client-closing", Bound: 1, BoundT: 1, Body: c12ScriptedBody(thorough, true, false), Live: true},
+		bScenario{Name: "scripted-v3-filepath-buffer-file-gone", Bound: 1, BoundT: 1, Body: c12ScriptedBody(false, false, true), Live: true})
 	runBScenarios(t, "C12", scs)
 }
